@@ -29,6 +29,26 @@ def in_code(line):
     s = line.strip()
     return s and not s.startswith(('*', '/*', '//', '#', '}')) and not s.startswith('P_LIB_API') and not s.endswith(',') or False
 
+def active_lines(relfile):
+    """Lines of the file that survive preprocessing in the reference build (lines inside inactive #if blocks can only yield
+    equivalent mutants).  None if it cannot be determined."""
+    try:
+        cc = json.load(open('/verif/build/ref/compile_commands.json'))
+        ent = [x for x in cc if x['file'].endswith('/' + relfile)][0]
+        cmd = re.sub(r' -o \S+', '', ent['command']).replace(' -c ', ' -E ')
+        out = subprocess.run(cmd, shell=True, cwd=ent['directory'], stdout=subprocess.PIPE, stderr=subprocess.DEVNULL, text=True).stdout
+        act = set(); cur = None; infile = False
+        for l in out.split('\n'):
+            m = re.match(r'^# (\d+) "([^"]*)"', l)
+            if m:
+                infile = m.group(2).endswith('/' + relfile); cur = int(m.group(1)); continue
+            if infile and cur is not None:
+                if l.strip(): act.add(cur)
+                cur += 1
+        return act or None
+    except Exception:
+        return None
+ACTIVE = active_lines(a.file)
 muts = []
 in_comment = False
 for ln in range(lo, hi + 1):
@@ -40,6 +60,7 @@ for ln in range(lo, hi + 1):
         continue
     if not st or st.startswith(('*', '/*', '//', '#')): continue
     if 'P_ERROR' in st or 'P_WARNING' in st or 'P_DEBUG' in st: continue
+    if ACTIVE is not None and ln not in ACTIVE: continue
     code = line
     for ops, kind in ((REL, 'rel'), (ARI, 'ari'), (CONST, 'const')):
         if kind == 'const' and not re.search(r'(return|=|\(|,)', code): continue
